@@ -15,6 +15,13 @@ model over an oracle-annotated abstract DOM (the oracle holds only lxml / csssel
 generated HTML the model's list of calls into the placement core and its final document are compared with the real parse
 (theorems parse_total, parse_valid, parse_no_internal, context_rules_apply_exactly in Props/C19.lean); `schema_rules` ordering is
 tied too (schema_rules_order), and the decidable guards of parse_no_internal are evaluated on every input of the tie.
+Export→import tie (PM/RoundTrip.lean): for every generated document of the bundled schemas the model serialises it (applying the
+evaluated `toDOM` outputs), fills the walk's oracle in by itself from the emitted DOM and the parse rules in restricted form
+(`tag[attr]` selectors, attribute-copying `get_attrs`), and parses; compared exactly with the real run: the HTML, the oracle-annotated
+abstract DOM (snapshot of the real parse of the real HTML), the parsed document.  Relation: the decidable hypothesis `rtOk` of the
+round-trip theorem (faithful rules + whitespace-normal text) implies that the real round trip is the identity; cases are counted per
+node kind (`roundtrip_kind:*`).  Theorem: roundtrip (rtOk R D doc -> roundTrip R D doc = ok doc; Props/C19.lean), with the
+roundtrip_*_partial theorems as its lemmas; every `rtOk` case of the tie is an instance of it.
 Search (named as such): termination (per-call alarm) and no-crash of lxml / cssselect / `re` on generated HTML; validity of the parsed
 document (check() + independent validator); context-restricted rules apply exactly where the open
 ancestors match; serialise → parse round trip on whitespace-normal documents of the bundled schemas.
@@ -687,6 +694,122 @@ def walk_compare(ctx, replay, info, pc, st_real, out, kind):
         ctx.count("walk:agree")
 
 
+# ---------------------------------------------------------------------------------------------
+# export -> import tie (PM/RoundTrip.lean: annotate / serializeDoc / toDomList (oracle filling) / roundTrip / rtOk)
+#
+# The model gets the document, the evaluated `toDOM` outputs of the node kinds / marks that occur in it, and the parse
+# rules in restricted form (`tag[attr]` selector, `get_attrs` as a table of copied DOM attributes — found by probing the
+# callback with an object whose `.get(a)` answers a marker naming `a`).  It serialises, turns its own output into the
+# abstract DOM *with the oracle filled in by itself*, and parses.  Compared exactly: the HTML with the real serializer's,
+# the abstract DOM (candidates, get_attrs answers, text nodes) with the snapshot of the real parse of the real HTML, the
+# parsed document with the real one.  Relation: `rtOk` (the hypothesis of the round-trip theorem) implies that the real
+# round trip gives the document back.
+
+SEL_RE = re.compile(r"^([a-z][a-z0-9]*)((?:\[[a-z][a-z0-9-]*\])*)$")
+
+
+class _ProbeDom:
+    def get(self, a, default=None):
+        return "\x00probe:" + a
+
+
+def rule_sel(rule):
+    """[tag, [needed attributes], None | [[key, dom attribute]]] of a tag rule, or None if it is not of that form"""
+    m = SEL_RE.match(rule.tag or "")
+    if not m or rule.namespace is not None or rule.get_content is not None or rule.content_element is not None:
+        return None
+    need = re.findall(r"\[([a-z0-9-]+)\]", m.group(2))
+    copy = None
+    if rule.get_attrs is not None:
+        try:
+            r = rule.get_attrs(_ProbeDom())
+        except Exception:  # noqa: BLE001
+            return None
+        if not isinstance(r, dict) or not all(isinstance(v, str) and v.startswith("\x00probe:") for v in r.values()):
+            return None
+        copy = [[k, v[len("\x00probe:"):]] for k, v in r.items()]
+    return [m.group(1), need, copy]
+
+
+def roundtrip_request(info, sid, ser, parser, snap, d):
+    sel = [rule_sel(r) for r in parser._tags]
+    if any(x is None for x in sel):
+        return None
+    node_dom, mark_dom, seen = [], [], set()
+
+    def visit(n):
+        if not n.is_text and n.type.name in ser.nodes:
+            key = ("n", n.type.name, json.dumps(info.attrs(n.type, n.attrs)))
+            if key not in seen:
+                seen.add(key)
+                node_dom.append([info.nid[n.type.name], info.attrs(n.type, n.attrs), spec_json(ser.nodes[n.type.name](n))])
+        for m in n.marks:
+            key = ("m", json.dumps(info.mark(m)), n.is_inline)
+            if key not in seen:
+                seen.add(key)
+                to_dom = ser.marks.get(m.type.name)
+                mark_dom.append([info.mark(m), n.is_inline, spec_json(to_dom(m, n.is_inline)) if to_dom else None])
+        for c in n.content.content:
+            visit(c)
+    visit(d)
+    return {"op": "roundTrip", "s": sid, "groups": snap["groups"], "wsPre": snap["wsPre"], "tags": snap["tags"],
+            "styles": snap["styles"], "sel": sel, "nodeDom": node_dom, "markDom": mark_dom,
+            "spanning": [info.schema.marks[n].spec.get("spanning") is not False for n in info.mark_names],
+            "doc": info.node(d)}
+
+
+def node_kinds(d):
+    out = {}
+
+    def f(n, pos, parent, i):
+        out[n.type.name] = out.get(n.type.name, 0) + 1
+        for m in n.marks:
+            out["mark:" + m.type.name] = out.get("mark:" + m.type.name, 0) + 1
+        return True
+    d.descendants(f)
+    return out
+
+
+def roundtrip_compare(ctx, replay, info, d, html, snap, st_real, doc_real, eligible, out):
+    ctx.count("roundtrip_tie:cases")
+    if out.get("html") != html:
+        ctx.mismatch("roundtrip-html", replay, html[:400], str(out.get("html", out))[:400])
+        return
+    if out.get("dom") != snap["kids"]:
+        ctx.mismatch("roundtrip-dom", dict(replay, html=html[:600]), snap["kids"], out.get("dom", out))
+        return
+    ctx.count("roundtrip_tie:dom-agree")
+    ctx.count("roundtrip_tie:dom-elements", snap["_elements"])
+    if st_real != "ok":
+        ctx.count("roundtrip_tie:real-" + st_real)
+        if out.get("err") != st_real:
+            ctx.mismatch("roundtrip-outcome", replay, st_real, out.get("err", "ok"))
+        return
+    want = info.node(doc_real)
+    if out.get("doc") != want:
+        ctx.mismatch("roundtrip-result", dict(replay, html=html[:600]), want, out.get("doc", out))
+        return
+    ctx.count("roundtrip_tie:result-agree")
+    mark_free = not any(k.startswith("mark:") for k in node_kinds(d)) and not d.marks
+    if out.get("noMarks") != mark_free:
+        ctx.mismatch("roundtrip-noMarks", replay, mark_free, out.get("noMarks"))
+        return
+    if mark_free and out.get("rtOk"):
+        ctx.count("roundtrip_tie:markfree-theorem-instances")      # roundtrip_markfree_partial applies: model = real = identity
+    identity = want == info.node(d)
+    ctx.count("roundtrip_tie:identity" if identity else "roundtrip_tie:not-identity")
+    if out.get("rtOk"):
+        ctx.count("roundtrip_tie:rtOk")
+        for k, v in node_kinds(d).items():
+            ctx.count("roundtrip_kind:" + k, v)
+        if not identity:
+            ctx.mismatch("roundtrip-rtOk", dict(replay, html=html[:600]), "rtOk holds", "the real round trip is not the identity")
+        if not eligible:
+            ctx.count("roundtrip_tie:rtOk-but-not-harness-normal")
+    elif eligible:
+        ctx.count("roundtrip_tie:harness-normal-but-not-rtOk")
+
+
 # a schema that uses every kind of parse rule the real parser supports: clear_mark / ignore / non-consuming style rules,
 # a mark with a shared default instance, ignore / close_parent / non-consuming tag rules, get_attrs answering False / None,
 # content_element (callable), get_content, all preserve_whitespace values, context restrictions, an explicit mark name
@@ -1057,6 +1180,7 @@ def run(ctx):
             if kind == "parse_slice" and "open" in out and out["open"] != replay["open"]:
                 ctx.mismatch("placement-slice-open", replay, replay["open"], out["open"])
     # ---- export, escaping, round trip
+    rreqs, rmetas, rt_seen = [], [], 0
     for name, schema in parse_schemas[:2]:
         info = schemas.by_name(name)
         ser = DOMSerializer.from_schema(schema)
@@ -1091,6 +1215,28 @@ def run(ctx):
             ids = {}
             reqs.append({"op": "serialize", "kids": [snode_json(ser, c, ids) for c in d.content.content]})
             metas.append((replay, html))
+            # export -> import tie: the real parse of the real HTML, recorded (snapshot of the oracle-annotated DOM);
+            # quick tier: two documents out of three (wall-clock budget)
+            rt_seen += 1
+            if ctx.tier == "quick" and rt_seen % 3 == 0:
+                continue
+            rdom = html_fragment(html)
+            (st_r, doc_r), pcs = recorded(info, lambda: parsers[name].parse(rdom))
+            snap = pcs[0]._snapshot if len(pcs) == 1 else None
+            if snap and not snap.get("_unsupported"):
+                rq = roundtrip_request(info, ctx.driver.add_schema(info), ser, parsers[name], snap, d)
+                if rq is not None:
+                    rreqs.append(rq)
+                    rmetas.append((replay, info, d, html, snap, st_r, doc_r, whitespace_normal(d) and carried_attrs(d)))
+                else:
+                    ctx.count("roundtrip_tie:rules-not-in-restricted-form")
+            else:
+                ctx.count("roundtrip_tie:not-recorded")
+    if rreqs:
+        outs = ctx.driver.run(rreqs)
+        for (replay, info, d, html, snap, st_r, doc_r, eligible), out in zip(rmetas, outs):
+            ctx.count("model_requests")
+            roundtrip_compare(ctx, replay, info, d, html, snap, st_r, doc_r, eligible, out)
     if reqs and any(r["op"] == "serialize" for r in reqs):
         outs = ctx.driver.run(reqs)
         for req, (replay, html), out in zip(reqs, metas, outs):
